@@ -39,9 +39,13 @@ def _cases(tier):
             yield {"blank": i, "place": "blank", "fw": fw, "data": "std"}
             yield {"blank": i, "place": "blank", "fw": fw, "data": "noimport"}
     for fw in FWS:
-        for pre in ("import os\nX = os.sep", "class Helper:\n    pass", "# a\n# b\n\nY = [\n    1,\n]", "    # indented comment", "X = 1\n\n\n\nZ = 2"):
+        for pre in ("import os\nX = os.sep", "class Helper:\n    pass", "# a\n# b\n\nY = [\n    1,\n]", "    # indented comment", "X = 1\n\n\n\nZ = 2",
+                    "X = '{{ y }}'  # {% if z %}", "def f():\n    return {\n        'k': 1,\n    }", "from typing import Tuple\nT = Tuple[int, int]",
+                    "X = 1  \n\n# trailing spaces above", "\tY = 2"):
             yield {"pre": pre, "place": "literal_preamble", "fw": fw, "data": "std"}
             yield {"pre": pre, "place": "literal_preamble", "fw": fw, "data": "noimport"}
+            yield {"pre": pre, "place": "literal_preamble", "fw": fw, "data": "two_models"}
+            yield {"pre": pre, "place": "literal_preamble", "fw": fw, "data": "std", "nested": True}
 
 
 def _word(case):
@@ -60,7 +64,7 @@ def execute(case, force_subprocess=False):
     d = tempfile.mkdtemp(prefix="c19_")
     viol = []
     try:
-        samples = SAMPLES if case["data"] == "std" else SAMPLES_NOIMPORT
+        samples = SAMPLES_NOIMPORT if case["data"] == "noimport" else SAMPLES
         fname = "in.json"
         preamble = None
         extra = []
@@ -92,14 +96,24 @@ def execute(case, force_subprocess=False):
         with open(os.path.join(d, fname), "w", encoding="utf8") as f:
             json.dump(samples, f)
         argv = ["-m", "Root", fname, "-f", case["fw"]] + extra
+        models = [("Root", samples)]
+        if case["data"] == "two_models":
+            with open(os.path.join(d, "second.json"), "w", encoding="utf8") as f:
+                json.dump([{"other": "x", "vals": [1.5]}], f)
+            argv = ["-m", "Root", fname, "-m", "Second", "second.json", "-f", case["fw"]] + extra
+            models.append(("Second", [{"other": "x", "vals": [1.5]}]))
+        if case.get("nested"):
+            argv += ["-s", "nested"]
         if preamble is not None:
             argv += ["--preamble", preamble]
         params = {"fw": case["fw"]}
+        if case.get("nested"):
+            params["layout"] = "nested"
         if place == "dkf":
             params["dkf"] = [_word(case)]
-        ref_nopre = c16.reference([("Root", samples)], dict(params))
+        ref_nopre = c16.reference(models, dict(params))
         params["preamble"] = preamble
-        ref = c16.reference([("Root", samples)], params)
+        ref = c16.reference(models, params)
         runner = clidrv.run_subprocess if force_subprocess else clidrv.run_inproc
         status, out, err = runner(argv, d)
         site = "pydantic" if case["fw"] == "sqlmodel" else case["fw"]
